@@ -21,6 +21,9 @@ import (
 	"google.golang.org/grpc/codes"
 	"google.golang.org/grpc/connectivity"
 	"google.golang.org/grpc/credentials"
+	// a transparent proxy has to understand the standard message compression:
+	// callers and backends negotiate it with their direct peer, which is fabio.
+	_ "google.golang.org/grpc/encoding/gzip"
 	"google.golang.org/grpc/metadata"
 	"google.golang.org/grpc/stats"
 	"google.golang.org/grpc/status"
@@ -67,7 +70,13 @@ func GetGRPCDirector(tlscfg *tls.Config, cfg *config.Config) func(ctx context.Co
 			return ctx, nil, fmt.Errorf("error extracting metadata from request")
 		}
 
-		outCtx := metadata.NewOutgoingContext(ctx, md.Copy())
+		outMD := md.Copy()
+		// grpc-accept-encoding is hop-by-hop: it names the compressors the
+		// caller can read, but it is fabio which has to read what the backend
+		// sends. The connection to the backend announces fabio's own list.
+		delete(outMD, "grpc-accept-encoding")
+
+		outCtx := metadata.NewOutgoingContext(ctx, outMD)
 
 		target, _ := ctx.Value(targetKey{}).(*route.Target)
 
